@@ -100,7 +100,11 @@ func (in *Interp) call(st *State, call *ast.CallExpr) Val {
 				if b := st.bufs[bv.ID]; b != nil && (b.Origin == "field" || b.Origin == "arg") {
 					in.recordStore(st, b.Src+"[]", "put", in.operand(st, call.Args[1]), UnkV{}, call.Pos())
 				}
-				in.write(st, bv, Const(w), &Rec{Kind: "int", Src: in.operand(st, call.Args[1]), Order: order, Expr: call.Args[1], Pos: call.Pos()})
+				rec := &Rec{Kind: "int", Src: in.operand(st, call.Args[1]), Order: order, Expr: call.Args[1], Pos: call.Pos()}
+				if iv, ok := in.eval(st, call.Args[1]).(IntV); ok {
+					rec.Val = iv.T
+				}
+				in.write(st, bv, Const(w), rec)
 			} else {
 				in.note(call.Pos(), "%s into unknown buffer %s", name, in.render(st, call.Args[0]))
 			}
@@ -744,6 +748,23 @@ func (in *Interp) lenCall(st *State, f *types.Func, recv Val, call *ast.CallExpr
 	return LenCall(path, shortType(recvT))
 }
 
+// applyCalleeStore makes an unconditional integer store of a summarised callee visible in the
+// caller's state (the value of a length field when the header is encoded after x.Len()).
+func (in *Interp) applyCalleeStore(st *State, s *Store, p, path string) {
+	if s.Guard != "" || s.Loop || s.Op != "=" || strings.Contains(p, "[") {
+		return
+	}
+	iv, ok := s.Val.(IntV)
+	if !ok || iv.T == nil {
+		return
+	}
+	t := iv.T
+	if path != "$" {
+		t = t.Reroot(path)
+	}
+	st.fields[p] = IntV{in.resolveLocal(st, t)}
+}
+
 func (in *Interp) lenOfKind(st *State, k *Kind, path string, call *ast.CallExpr) *Term {
 	ls := in.w.LenSummary(k)
 	if ls == nil || ls.Term == nil {
@@ -768,6 +789,7 @@ func (in *Interp) lenOfKind(st *State, k *Kind, path string, call *ast.CallExpr)
 				i.Stores = append(i.Stores, &ns)
 			}
 		}
+		in.applyCalleeStore(st, s, p, path)
 	}
 	if ls.Term.IsConst() {
 		return ls.Term
